@@ -59,6 +59,13 @@ type fctx struct {
 	splits   []Term // active case-analysis conditions (obligations are discharged once per case)
 	measure0 []Term // entry value of the function-level decreases measure
 	hidden   []types.Object // hidden index variables of enclosing range loops (innermost last)
+	defers   []deferRec     // deferred delete(m, k) on local maps, applied at the merged exit
+}
+
+type deferRec struct {
+	obj types.Object
+	key Term
+	pc  Term
 }
 
 type Exec struct {
@@ -690,6 +697,22 @@ func (x *Exec) execStmt(s ast.Stmt, env *Env, label string) *Env {
 			if _, inMod := x.P.ByObj[fn]; !inMod {
 				x.W.Note("defer " + x.P.KeyOf(fn) + " ignored")
 				return env
+			}
+		}
+		// defer delete(m, k) on a local map outside loops: applied at the function exit
+		if id, ok := ast.Unparen(s.Call.Fun).(*ast.Ident); ok && id.Name == "delete" && len(s.Call.Args) == 2 {
+			if _, isBuiltin := x.cx.info.Uses[id].(*types.Builtin); isBuiltin {
+				if mid, ok := ast.Unparen(s.Call.Args[0]).(*ast.Ident); ok {
+					for _, f := range x.cx.frames {
+						if f.kind == "loop" {
+							unsupported("defer inside a loop")
+						}
+					}
+					mt := x.cx.info.TypeOf(mid).Underlying().(*types.Map)
+					k := x.evalAs(s.Call.Args[1], env, mt.Key())
+					x.cx.defers = append(x.cx.defers, deferRec{obj: x.cx.info.Uses[mid], key: k, pc: env.pc})
+					return env
+				}
 			}
 		}
 		unsupported("defer of in-module call")
